@@ -22,7 +22,7 @@ ASSUMPTIONS = [
 ]
 MONITORS = ["main_events_compared", "epoch_announcements_compared", "batch_sampler_runs", "stop_points_compared"]
 
-MAIN_KINDS = ["rec", "rec", "rec", "rec_noepoch", "torch_seq", "torch_rand", "kd_rand_rep", "kd_dist", "torch_dist2"]
+MAIN_KINDS = ["rec", "rec", "rec", "rec_noepoch", "torch_seq", "torch_rand", "kd_rand_rep", "kd_dist", "torch_dist2", "kd_dist2"]
 
 
 def gen_cases(run):
@@ -33,7 +33,7 @@ def gen_cases(run):
         kind = rng.choice(MAIN_KINDS)
         if kind not in ("rec", "rec_noepoch"):
             g["M"] = g["N"]
-        if kind == "torch_dist2":
+        if kind in ("torch_dist2", "kd_dist2"):
             # torch's DistributedSampler with 2 replicas yields ceil(n/2) indices over a dataset of n
             g["M"] = g["N"] * 2 - rng.choice([0, 1])
         spec = {"g": g, "budget": H.gen_budget(rng, g), "cfgs": H.gen_configs(rng, g), "main_kind": kind, "seed": rng.randrange(10 ** 6)}
@@ -138,7 +138,7 @@ def run_case(run, spec):
     if not ok:
         return
     s2 = built2[0]
-    if spec["main_kind"] in ("rec", "rec_noepoch", "torch_seq", "kd_dist", "torch_dist2"):  # reproducible draws
+    if spec["main_kind"] in ("rec", "rec_noepoch", "torch_seq", "kd_dist", "torch_dist2", "kd_dist2"):  # reproducible draws
         def batches():
             held = []  # the batch objects are kept (as a DataLoader's index queue / prefetching does) and read after the iteration
             with H.StepBudget(200 * cap + 5000, H.sched_codes(), what="batch sampler"):
@@ -158,7 +158,7 @@ def run_case(run, spec):
             run.violation("batch-sampler", f"{_desc(spec)}: main batches from batch_sampler {got_main[:6]}… vs model {want_main[:6]}…")
             return
     # ---- a second iteration of the SAME sampler object starts from the beginning again (no state survives an iteration)
-    if spec["main_kind"] in ("rec", "torch_seq", "kd_dist", "torch_dist2") and spec["seed"] % 3 == 0:  # draws that depend on the announced epoch only
+    if spec["main_kind"] in ("rec", "torch_seq", "kd_dist", "torch_dist2", "kd_dist2") and spec["seed"] % 3 == 0:  # draws that depend on the announced epoch only
         first = list(events)
         del events[:]
         ok, finished2 = call_real(run, lambda: H.consume(sampler, events, cap), what="iterating the same InterleavedSampler a second time")
